@@ -556,3 +556,48 @@ def getter_forwarding(ctx, repo, pid):
     if not bad:
         ctx.ok("OWN", f"{pid}.forward", f"no grid class shadows one of the {len(vnames)} forwarded Voronoi methods with an implementation of its own "
                f"({len(shadows)} plain delegations)", ga.where)
+
+
+# ---------------------------------------------------------------------------------------------------------------------------
+# SNAP: the measure functions behind the border / distance / area entries must not snap small values to a constant
+
+MEASURE_FUNCTIONS = ("exact_area_of_spherical_polygon", "dist_on_sphere", "angle_between_vectors", "distance_between_quaternions",
+                     "_get_alpha_with_spherical_cosine_law")
+
+
+def value_snapping(ctx, repo, pid):
+    """a border entry that is exactly 0 is not stored in the sparse matrix, an adjacency entry of the same pair is: a measure function
+    that returns a constant when its result is 'close to' something makes the three matrices disagree for small faces / near pairs"""
+    m = repo.module("molgri.space.utils")
+    n_f = 0
+    bad = []
+    for name in MEASURE_FUNCTIONS:
+        fi = m.functions.get(name)
+        if fi is None:
+            continue
+        n_f += 1
+        ctx.analysed(fi)
+        for n in ast.walk(fi.node):
+            if not isinstance(n, ast.If):
+                continue
+            tol = [c for c in ast.walk(n.test) if (isinstance(c, ast.Call) and src(c.func).split(".")[-1] in ("isclose", "allclose")) or
+                   (isinstance(c, ast.Compare) and len(c.ops) == 1 and isinstance(c.ops[0], (ast.Lt, ast.LtE)) and
+                    any(isinstance(x, ast.Call) and src(x.func).split(".")[-1] in ("abs", "fabs", "absolute") for x in [c.left]))]
+            if not tol:
+                continue
+            consts = [r for b in n.body for r in ast.walk(b) if isinstance(r, ast.Return) and isinstance(r.value, ast.Constant) and
+                      isinstance(r.value.value, (int, float)) and not isinstance(r.value.value, bool)]
+            if consts:
+                bad.append((fi, n, consts[0]))
+    ctx.instance("FLOATTOL", n_f + 1)
+    if n_f == 0:
+        ctx.inconclusive("FLOATTOL", f"{pid}.measure.snap", "none of the measure functions found in molgri/space/utils.py", m.relpath)
+        return
+    for fi, n, r in bad:
+        ctx.violate("FLOATTOL", f"{pid}.measure.snap", f"`{fi.name}` returns the constant {r.value.value!r} whenever its result is within a tolerance: "
+                    "a small but positive face / angle is reported as exactly that constant; a border of 0 is not stored in the sparse matrix "
+                    "while the pair stays adjacent, so adjacency, borders and distances no longer share one pattern and the entry is not "
+                    "the face measure", fi.where, "if " + src(n.test)[:120], witness=f"return {r.value.value!r} under `{src(n.test)[:80]}`")
+    if not bad:
+        ctx.ok("FLOATTOL", f"{pid}.measure.snap", f"none of the {n_f} measure functions replaces a small result by a constant under a tolerance test",
+               m.relpath)
